@@ -29,7 +29,7 @@ LEVEL = "proof"
 def run(ctx):
     # further property files of C02: RowNeighbourhood (coq/Properties_C02_neigh.v), review gaps (coq/Properties_gaps1.v: legalize ->
     # from_circuit chain, interleaved histories)
-    proof_ok, proof = common.proof_status_all(ctx, "C02", ["C02_neigh", "gaps1"])
+    proof_ok, proof = common.proof_status_all(ctx, "C02", ["C02_neigh", "gaps1", "C02_run"])
     s = ctx.seed
     harness = common.build_harness("dplace")
     driver = common.build_driver()
@@ -143,8 +143,13 @@ def run(ctx):
             ctx.violation("proof obligations of Properties_C02.v do not check", {"broken": "Properties_C02.v", "detail": proof}, found_input=False)
     from checks import c02_neigh
     cov_n, _ = c02_neigh.run_neigh(ctx, 2000 if ctx.quick else 200000, ctx.seed)
+    # closed model of DetailedPlacer::run / runSwaps / runReordering (coq/DetailedRun.v): whole passes and whole runs, exact
+    from checks import c02_run as crun
+    runres = crun.run_closed(ctx, 3000 if ctx.quick else 60000, ctx.seed + 90)
+    crun.report(ctx, runres, "C02")
     cov = dict(proof)
     cov.update(cov_n)
+    cov["closed_run_tie"] = crun.summary(runres)
     cov.update({"trusted_base": common.TRUSTED_BASE + ["the five index arrays of DetailedPlacement: modelled (MovesConcrete.v), proved to refine the per-row lists, and compared array by array (tag DC); the lists are compared through rowCells()",
                                                         "lemon NetworkSimplex (shift pass) is not modelled: legality after a shift pass follows (proved) from dual feasibility of its potentials, which is re-checked per call "
                                                         "(needs the hook coloquinte_verif_shift_hook in /repo), and the positions written are re-checked with the proved guard shift_ok"],
@@ -176,6 +181,14 @@ def run(ctx):
 def replay(ctx, path):
     r = json.load(open(path))["replay"]
     case = r.get("case") or r["first_difference"]["case"]
+    if case.startswith(("DR", "DW")):
+        from checks import c02_run as crun
+        res = crun.run_closed(ctx, 0, 0, lines=[case])
+        print("case:", case); print(crun.summary(res))
+        bad = res["mismatch"] + res["driver_fail"] + res["check_fail"] + res["crash"] + res["overflow_throws"] + res["value_increases"]
+        for x in bad[:3]:
+            print("  ", " | ".join(str(y)[:400] for y in x[1:]))
+        return 1 if bad else 0
     if case.startswith("EX"):
         from checks import c02_export as ce
         harness = common.build_harness("dexport"); driver = common.build_driver("export")
